@@ -19,6 +19,13 @@ CHECKS = {
     },
 }
 
+CHECKS["C01"] = {
+    "category": "other",
+    "text": "bounded symbolic verification: every catalogued transform configuration (harness/cases.py) and the four spline functions with a symbolic box run their real forward on symbolic tensors whose inputs carry dual numbers; per path z3 decides exp(logabsdet)^2 == det(J)^2 (J = dual-number Jacobian of the map actually computed) and every side obligation (divisors, log/sqrt arguments). Bounded: one batch row, <= 3 features, bins <= 2 (quick) / 3 (thorough), real arithmetic; UMNN outside.",
+    "design_ref": "DESIGN.md section 6, C01",
+    "technique": "symbolic execution of the real forward with dual numbers + polynomial normalisation + z3 nlsat (QF_NRA/QF_UFNRA)",
+}
+
 NOT_APPLICABLE = {
     "C19": "float32-vs-float64 agreement needs QF_FP terms for chains of mul/div/sqrt/exp/log at two precisions; a 6-op representative was undecided in 60 s by z3 5.1, cvc5 1.0.3 and cvc5 1.4.0, and exp/log have no FP theory (DESIGN section 7)",
 }
